@@ -21,7 +21,7 @@ type Verdict struct {
 	Known      []string // ids of known findings this case ran into
 	NonTrivial bool
 	Labels     []string
-	Skip       bool // case outside the domain (counted as inconclusive)
+	Skip       bool     // case outside the domain (counted as inconclusive)
 	Excluded   []string // ids of known findings whose class the generator avoided in this case
 }
 
@@ -38,6 +38,7 @@ type Spec[C any] struct {
 	Gen                func(t *rapid.T) C
 	Check              func(c C) Verdict
 	Sample             func(c C) any // compact rendering for the evidence (default: the case itself)
+	ReplayRuns         int           // how often a replay file is run (default 1)
 }
 
 func writeFailure[C any](f *Failure[C]) string {
@@ -75,14 +76,21 @@ func Run[C any](t *testing.T, s Spec[C]) {
 		if err := json.Unmarshal(b, &fl); err != nil {
 			t.Fatalf("bad replay file %s: %v", f, err)
 		}
-		v := s.Check(fl.Case)
-		for _, k := range v.Known {
-			fmt.Printf("REPLAY-KNOWN %s\n", k)
+		runs := s.ReplayRuns
+		if runs < 1 {
+			runs = 1
 		}
-		if len(v.Violations) > 0 {
-			fmt.Printf("REPLAY-VIOLATION %s: %s\n", s.Prop, v.Violations[0])
-			t.Fail()
-			return
+		// (a case whose outcome depends on map iteration order or scheduling is replayed several times)
+		for i := 0; i < runs; i++ {
+			v := s.Check(fl.Case)
+			for _, k := range v.Known {
+				fmt.Printf("REPLAY-KNOWN %s\n", k)
+			}
+			if len(v.Violations) > 0 {
+				fmt.Printf("REPLAY-VIOLATION %s: %s\n", s.Prop, v.Violations[0])
+				t.Fail()
+				return
+			}
 		}
 		fmt.Printf("REPLAY-OK %s\n", s.Prop)
 		return
